@@ -6,6 +6,7 @@ package sctp
 // reused after both directions were reset.
 
 import (
+	"errors"
 	"fmt"
 	"io"
 	"sync"
@@ -106,8 +107,23 @@ func vfRunReset(t *testing.T, spec *vfSpec, res *vfRes) {
 							if spec.x("slow_reader", 0) == 1 {
 								time.Sleep(time.Duration(1+rr.Intn(20)) * time.Millisecond)
 							}
+							if pm := spec.x("poll_reader_ms", 0); pm > 0 {
+								_ = rst.SetReadDeadline(time.Now().Add(time.Duration(pm) * time.Millisecond))
+							}
 							n, ppi, err := rst.ReadSCTP(buf)
+							if err != nil && spec.x("poll_reader_ms", 0) > 0 && errors.Is(err, ErrReadDeadlineExceeded) {
+								select {
+								case <-sim.net.pumpDone:
+									_ = rst.SetReadDeadline(time.Time{})
+
+									return
+								default:
+								}
+
+								continue
+							}
 							if err != nil {
+								_ = rst.SetReadDeadline(time.Time{})
 								objMu.Lock()
 								o.end = err
 								objMu.Unlock()
@@ -220,6 +236,15 @@ func vfRunReset(t *testing.T, spec *vfSpec, res *vfRes) {
 					}
 					if err := wst.Close(); err != nil {
 						res.violate("C14", "close/error", "incarnation %d of stream %d: Close returned %v", inc, sid, err)
+					}
+					if dc := spec.x("double_close", 0); dc > 0 {
+						// Close is idempotent: a second call while the reset is in progress asks for nothing new
+						if dc == 2 {
+							time.Sleep(3 * time.Millisecond)
+						}
+						if err := wst.Close(); err != nil {
+							res.violate("C14", "close/error", "incarnation %d of stream %d: second Close returned %v", inc, sid, err)
+						}
 					}
 					close(run.wDone)
 					// writes after Close are rejected
@@ -565,6 +590,11 @@ func vfGenResetSpecs(tier string, seed uint64, race bool) []vfSpec {
 			"streams": int64(r.Pick(1, 1, 2, 4, 16)), "incarnations": int64(r.Pick(1, 2, 3, 5)), "q": int64(r.Pick(0, 1, 3, 10, 40, 200)),
 			"unordered": int64(r.Intn(2)), "slow_reader": int64(r.Intn(3) / 2), "alternate": int64(r.Intn(2)),
 			"settle_ms": int64(r.Pick(0, 0, 50, 3000)), "idle_close": int64(r.Intn(2)),
+		}
+		// a reader that arms a read deadline before every read (the end of the stream must survive that)
+		sp.X["double_close"] = int64([]int{0, 0, 1, 2}[vfHash(sp.Seed, 0x9013)%4])
+		if vfHash(sp.Seed, 0x9011)%3 == 0 {
+			sp.X["poll_reader_ms"] = int64([]int{50, 300, 2000}[vfHash(sp.Seed, 0x9012)%3])
 		}
 		if fk == "drop-responses" || r.Intn(6) == 0 {
 			sp.X["pace_ms"] = int64(r.Pick(200, 700))
